@@ -8,6 +8,8 @@
 //	parser.wf                     term lists produced by the real parsers              vs SV.Pattern.wfB (= WF)
 //	pattern.range                 range searcher choice + check                        vs newRangeNumberSearch/checkText
 //	pattern.search                pattern.Search over simple and token.Provider        vs SV.Pattern.search
+//	active.find                   frac.TokenList.FindPattern (real active token list)  vs SV.Pattern.activeFind
+//	provider.get                  token.Provider.GetToken (findBlock + block cache)     vs SV.Pattern.providerGetTokens
 //	table.select                  token.Table.SelectEntries                            vs SV.Pattern.selectEntries
 //	sealed.search                 sealedTokenIndex.GetTIDsByTokenExpr (hand-built table) vs SV.Pattern.sealedSearch
 //
@@ -561,8 +563,8 @@ type H struct {
 	rep *vh.Report
 	rnd *vh.RNG
 
-	chPf, chFind, chSeq, chCheck, chGlob, chParse, chRange, chSearch, chSelect, chSealed *vh.Channel
-	orGlob, orSearch, orRange, orFrac                                        *vh.Oracle
+	chPf, chFind, chSeq, chCheck, chGlob, chParse, chRange, chSearch, chActive, chProvider, chSelect, chSealed *vh.Channel
+	orGlob, orSearch, orRange, orFrac                                                                          *vh.Oracle
 }
 
 func (h *H) violate(site, class, what string, replay ...string) {
@@ -704,7 +706,9 @@ func (h *H) opSealed(t tok, base uint32, blocks [][][]byte, phys []bool) {
 		h.rep.Note("fixture: %v", err)
 		return
 	}
-	impl := guard(func() string { return fmtTids(frac.VerifSealedTIDs(context.Background(), fx.table, fx.cache, t.parserToken())) })
+	impl := guard(func() string {
+		return fmtTids(frac.VerifSealedTIDs(context.Background(), fx.table, fx.cache, t.parserToken()))
+	})
 	kt := "tok=range"
 	if t.r == nil {
 		kt = "tok=" + shape(t.lit)[6:]
@@ -757,6 +761,8 @@ func main() {
 	h.chParse = vh.NewChannel("parser.wf", "every Literal produced by parser.ParseSeqQL / parser.ParseQuery (keyword, text and path fields; bare, quoted, escaped, in(...) forms; all values over {a,b,*} up to a bound, random beyond) satisfies the Lean predicate WF (hypothesis of c13_wildcard_iff_glob); non-trivial = more than one term")
 	h.chRange = vh.NewChannel("pattern.range", "NewRangeNumberSearch/newRangeTextSearch choice and check vs the model with strconv.ParseFloat results passed as oracle table: all end combinations x include flags x tokens from a pool of numeric, non-numeric and odd strings; non-trivial = at least one given end")
 	h.chSearch = vh.NewChannel("pattern.search", "pattern.Search vs SV.Pattern.search over simple providers (ordered and not) and real token.Provider over hand-built tables; exhaustive small dictionaries, random larger; non-trivial = >1 token and non-empty answer")
+	h.chActive = vh.NewChannel("active.find", "real frac.TokenList (NewActiveTokenList + Append in several batches, two fields) FindPattern vs SV.Pattern.activeFind on the (tid, value) pairs read back from the list; small exhaustive and random dictionaries, literal / wildcard / range tokens; non-trivial = non-empty answer")
+	h.chProvider = vh.NewChannel("provider.get", "token.Provider.GetToken call sequences (ascending, descending, random jumps - exercising the cached-block fast path and the binary search) over hand-built tables vs SV.Pattern.providerGetTokens; all layouts of small dictionaries, random larger; non-trivial = more than one block")
 	h.chSelect = vh.NewChannel("table.select", "token.Table.SelectEntries vs SV.Pattern.selectEntries: every sorted dictionary over a small universe in every block layout x hints; non-trivial = >1 block and non-empty hint")
 	h.chSealed = vh.NewChannel("sealed.search", "sealedTokenIndex.GetTIDsByTokenExpr over a hand-built table with pre-loaded blocks vs SV.Pattern.sealedSearch; every dictionary <= 6 tokens over a small universe in every block layout; non-trivial = >1 block and non-empty answer")
 	h.orGlob = vh.NewOracle("glob.property", "for every well-formed term list: check(token) == reference glob; non-trivial = wildcard pattern")
@@ -782,10 +788,11 @@ func main() {
 		h.genRange()
 		h.genSearch()
 		h.genSealed()
+		h.genActive()
 		h.genFrac()
 	}
 
-	for _, c := range []*vh.Channel{h.chPf, h.chFind, h.chSeq, h.chCheck, h.chGlob, h.chParse, h.chRange, h.chSearch, h.chSealed} {
+	for _, c := range []*vh.Channel{h.chPf, h.chFind, h.chSeq, h.chCheck, h.chGlob, h.chParse, h.chRange, h.chSearch, h.chActive, h.chProvider, h.chSealed} {
 		if o.Only == "" || o.Only == c.Name {
 			rep.AddChannel(c, o.Driver)
 		}
@@ -1156,8 +1163,12 @@ func (h *H) genSearch() {
 	// random larger dictionaries
 	for i := 0; i < o.Pick(300, 6000); i++ {
 		set := map[string]bool{}
+		alpha := "abc"
+		if i%4 == 3 { // unsigned byte order: NUL, 0x7f, 0x80, 0xff
+			alpha = "a\x00\x7f\x80\xff"
+		}
 		for k := h.rnd.Range(0, 40); k > 0; k-- {
-			set[string(h.randWord("abc", 5))] = true
+			set[string(h.randWord(alpha, 5))] = true
 		}
 		var d [][]byte
 		for _, s := range vh.SortedKeys(set) {
@@ -1165,7 +1176,7 @@ func (h *H) genSearch() {
 		}
 		var t tok
 		if h.rnd.Chance(1, 5) {
-			f, tt := string(h.randWord("abc", 3)), string(h.randWord("abc", 3))
+			f, tt := string(h.randWord(alpha, 3)), string(h.randWord(alpha, 3))
 			r := &rng{incFrom: h.rnd.Bool(), incTo: h.rnd.Bool()}
 			if h.rnd.Chance(3, 4) {
 				r.from = &f
@@ -1175,7 +1186,7 @@ func (h *H) genSearch() {
 			}
 			t = tok{r: r}
 		} else {
-			t = tok{lit: patTerms(string(h.randWord("abc*", 5)))}
+			t = tok{lit: patTerms(string(h.randWord(alpha+"*", 5)))}
 		}
 		base := uint32(h.rnd.Range(1, 50))
 		h.opSearch(t, true, base, [][][]byte{d}, nil, false)
@@ -1230,6 +1241,9 @@ func (h *H) genSealed() {
 			for i := range phys {
 				phys[i] = (mask>>i)&1 == 1
 			}
+			for _, sq := range h.provSeqs(base, len(d)) {
+				h.opProvider(base, blocks, phys, sq)
+			}
 			for _, t := range toks {
 				h.opSealed(t, base, blocks, phys)
 			}
@@ -1258,3 +1272,34 @@ func (h *H) genSealed() {
 }
 
 func (h *H) addSelect(hint []byte, blocks [][][]byte) { h.opSelect(hint, blocks) }
+
+// opProvider: one real token.Provider, a sequence of GetToken calls.
+func (h *H) opProvider(base uint32, blocks [][][]byte, phys []bool, tids []uint32) {
+	fx, err := newSealedFixture(base, blocks, phys)
+	if err != nil {
+		h.rep.Note("fixture: %v", err)
+		return
+	}
+	req := fmt.Sprintf("pget %d %s %s", base, fmtBlocks(blocks), vh.JoinInts(tids))
+	impl := guard(func() string {
+		tp := fx.provider()
+		var out [][]byte
+		for _, t := range tids {
+			out = append(out, append([]byte{}, tp.GetToken(t)...))
+		}
+		return "ok " + hxList(out, ",")
+	})
+	h.chProvider.Add(req, impl, len(blocks) > 1, fmt.Sprintf("blocks=%d", min(len(blocks), 6)))
+}
+
+func (h *H) provSeqs(base uint32, n int) [][]uint32 {
+	var asc, desc, rnd []uint32
+	for i := 0; i < n; i++ {
+		asc = append(asc, base+uint32(i))
+		desc = append(desc, base+uint32(n-1-i))
+	}
+	for i := 0; i < 2*n; i++ {
+		rnd = append(rnd, base+uint32(h.rnd.Intn(n)))
+	}
+	return [][]uint32{asc, desc, rnd}
+}
